@@ -4,9 +4,13 @@
    the raw lhs / rhs caches; `self.protocol` of a known class is its class default (floor_protocol).
    EptMapResult.unpack has two nested `for _ in range(count)` loops (towers, floors) with the count guard in front;
    the tie holds whenever the model does not run out of fuel (C18_linear: fuel > length suffices).
-   EptMapResult.pack is tied under the field ranges eptres_ranges (implied by wf_ept_map_result). *)
+   EptMapResult.pack is tied under the field ranges ept_map_result_ranges (implied by wf_ept_map_result). *)
 From V Require Import Prelude.Base Prelude.PyInt Prelude.PySlice Prelude.PyStr Prelude.PyAst Prelude.PyWorld gen.F_rpc.
 From V Require Import Model.Pdu Model.Request Model.RpcLoop Model.Bind Model.Verification Model.Epm Flow.World_rpc Proofs.Flow_rpc_lib.
+
+(* in this file a floor's ranges are computed through: the kind is known in every lemma *)
+Local Arguments floor_ranges f /.
+Local Arguments floor_generic_ranges protocol lhs rhs /.
 From V Require Import Proofs.RpcTotal.
 Local Open Scope string_scope.
 Local Open Scope list_scope.
@@ -15,14 +19,13 @@ Local Open Scope Z_scope.
 (* Floor.pack, the base class method: packs the raw fields (protocol, lhs, rhs) of any floor object *)
 Lemma flow_floor_pack mf fuel f :
   run (W mf) fuel k_flow_floor_pack [VO (OFloor f)] =
-  chk (in_range 2 (len (fl_lhs f) + 1) && in_range 1 (floor_protocol f) && in_range 2 (len (fl_rhs f)))
+  chk (floor_generic_ranges (floor_protocol f) (fl_lhs f) (fl_rhs f))
       (floor_generic_pack (floor_protocol f) (fl_lhs f) (fl_rhs f)).
-Proof. unfold floor_generic_pack, chk. destruct f as [k p l r]. tie. Qed.
+Proof. unfold floor_generic_pack, floor_generic_ranges, chk. destruct f as [k p l r]. tie. Qed.
 
 Lemma flow_floor_pack_generic mf fuel f : fl_kind f = FK_Generic ->
-  run (W mf) fuel k_flow_floor_pack [VO (OFloor f)] =
-  chk (in_range 2 (len (fl_lhs f) + 1) && in_range 1 (fl_protocol f) && in_range 2 (len (fl_rhs f))) (floor_pack f).
-Proof. intros Hk. rewrite flow_floor_pack. unfold floor_pack, floor_protocol, floor_lhs, floor_rhs. rewrite Hk. reflexivity. Qed.
+  run (W mf) fuel k_flow_floor_pack [VO (OFloor f)] = chk (floor_ranges f) (floor_pack f).
+Proof. intros Hk. rewrite flow_floor_pack. unfold floor_ranges, floor_pack, floor_protocol, floor_lhs, floor_rhs. rewrite Hk. reflexivity. Qed.
 
 Lemma flow_floor_unpack mf fuel data :
   run (W mf) fuel k_flow_floor_unpack [VO (OCls CFloor); VB data] = (let* f := floor_unpack data in Ok (VO (OFloor f))).
@@ -32,21 +35,21 @@ Proof.
 Qed.
 
 Lemma flow_tcpfloor_pack mf fuel f port : fl_kind f = FK_TCP port ->
-  run (W mf) fuel k_flow_tcpfloor_pack [VO (OFloor f)] = chk (in_range 2 port) (floor_pack f).
+  run (W mf) fuel k_flow_tcpfloor_pack [VO (OFloor f)] = chk (floor_ranges f) (floor_pack f).
 Proof. destruct f as [k p l r]. cbn [fl_kind]. intros ->. unfold chk. tie. Qed.
 Lemma flow_tcpfloor_unpack mf fuel lhs rhs :
   run (W mf) fuel k_flow_tcpfloor_unpack [VO (OCls CTCPFloor); VB lhs; VB rhs] = Ok (VO (OFloor (known_floor (FK_TCP (be_val rhs))))).
 Proof. reflexivity. Qed.
 
 Lemma flow_ipfloor_pack mf fuel f addr : fl_kind f = FK_IP addr ->
-  run (W mf) fuel k_flow_ipfloor_pack [VO (OFloor f)] = chk (in_range 4 addr) (floor_pack f).
+  run (W mf) fuel k_flow_ipfloor_pack [VO (OFloor f)] = chk (floor_ranges f) (floor_pack f).
 Proof. destruct f as [k p l r]. cbn [fl_kind]. intros ->. unfold chk. tie. Qed.
 Lemma flow_ipfloor_unpack mf fuel lhs rhs :
   run (W mf) fuel k_flow_ipfloor_unpack [VO (OCls CIPFloor); VB lhs; VB rhs] = Ok (VO (OFloor (known_floor (FK_IP (be_val rhs))))).
 Proof. reflexivity. Qed.
 
 Lemma flow_rpccofloor_pack mf fuel f vm : fl_kind f = FK_RPC_CO vm ->
-  run (W mf) fuel k_flow_rpccofloor_pack [VO (OFloor f)] = chk (in_range 2 vm) (floor_pack f).
+  run (W mf) fuel k_flow_rpccofloor_pack [VO (OFloor f)] = chk (floor_ranges f) (floor_pack f).
 Proof. destruct f as [k p l r]. cbn [fl_kind]. intros ->. unfold chk. tie. Qed.
 Lemma flow_rpccofloor_unpack mf fuel lhs rhs :
   run (W mf) fuel k_flow_rpccofloor_unpack [VO (OCls CRPCConnectionOrientedFloor); VB lhs; VB rhs] =
@@ -54,7 +57,7 @@ Lemma flow_rpccofloor_unpack mf fuel lhs rhs :
 Proof. reflexivity. Qed.
 
 Lemma flow_uuidfloor_pack mf fuel f u v vm : fl_kind f = FK_UUID u v vm ->
-  run (W mf) fuel k_flow_uuidfloor_pack [VO (OFloor f)] = chk (in_range 2 v && in_range 2 vm) (floor_pack f).
+  run (W mf) fuel k_flow_uuidfloor_pack [VO (OFloor f)] = chk (floor_ranges f) (floor_pack f).
 Proof. destruct f as [k p l r]. cbn [fl_kind]. intros ->. unfold chk. tie. Qed.
 Lemma flow_uuidfloor_unpack mf fuel lhs rhs :
   run (W mf) fuel k_flow_uuidfloor_unpack [VO (OCls CUUIDFloor); VB lhs; VB rhs] =
@@ -140,11 +143,7 @@ Proof.
     | rewrite HL by (norm_in Hne; congruence); tie ].
 Qed.
 
-(* EptMapResult.pack: the field ranges under which no to_bytes overflows (implied by wf_ept_map_result) *)
-Definition tower_ok (t : list floor) : bool := in_range 2 (len t) && in_range 4 (len (tower_bytes t)).
-Definition eptres_ranges (m : ept_map_result) : bool :=
-  handle_ok (er_entry_handle m) && forallb tower_ok (er_towers m) && in_range 4 (len (er_towers m)) && in_range 4 (er_status m).
-
+(* EptMapResult.pack: tied under the field ranges ept_map_result_ranges of Flow/World_rpc.v (implied by wf_ept_map_result) *)
 Lemma in_range_4_8 x : in_range 4 x = true -> in_range 8 x = true.
 Proof. unfold in_range. rewrite P_4, P_8. lia. Qed.
 Lemma in_range_idx i n : 0 <= i -> i < n -> in_range 4 n = true -> in_range 8 (i + 3) = true.
@@ -157,7 +156,7 @@ Lemma eptres_pack_loop mf fuel m : in_range 4 (len (er_towers m)) = true ->
   forall rest i env refs tw,
   lookup "b_tower_referents" env = Some (VB refs) -> lookup "b_tower" env = Some (VB tw) ->
   lookup "self" env = Some (VO (OEptMapResult m)) ->
-  0 <= i -> i + len rest = len (er_towers m) -> forallb tower_ok rest = true ->
+  0 <= i -> i + len rest = len (er_towers m) -> forallb tower_ranges rest = true ->
   exists env', for_each (W mf) fuel ["idx"; "t"] eptres_pack_body (enumerate_from i (map vfloors rest)) env = Ok (Next env')
     /\ lookup "b_tower_referents" env' = Some (VB (refs ++ referents_pack i rest))
     /\ lookup "b_tower" env' = Some (VB (tw ++ towers_pack (len (er_towers m)) i rest))
@@ -167,12 +166,12 @@ Proof.
   intros Hn. induction rest as [|t rest IH]; intros i env refs tw Hr Ht Hs Hi Hlen Hok.
   - exists env. cbn. rewrite !app_nil_r. auto.
   - cbn [map enumerate_from]. rewrite for_each_cons.
-    cbn [forallb] in Hok. apply andb_prop in Hok. destruct Hok as [Hok1 Hok]. unfold tower_ok in Hok1.
-    apply andb_prop in Hok1. destruct Hok1 as [Hk1 Hk2]. rewrite len_cons in Hlen. pose proof (len_nonneg rest).
+    cbn [forallb] in Hok. apply andb_prop in Hok. destruct Hok as [Hok1 Hok]. unfold tower_ranges in Hok1.
+    apply andb_prop in Hok1. destruct Hok1 as [Hk1 Hk2]. apply andb_prop in Hk1. destruct Hk1 as [Hk1 Hkf]. rewrite len_cons in Hlen. pose proof (len_nonneg rest).
     assert (Hk3 := in_range_idx i (len (er_towers m)) Hi ltac:(lia) Hn). assert (Hk4 := in_range_4_8 _ Hk2).
     unfold tower_bytes in Hk2, Hk4. cbn [concat] in Hk2, Hk4. rewrite app_nil_r in Hk2, Hk4.
     unfold eptres_pack_body at 1. cbn [nth_error pf_body k_flow_eptmapresult_pack].
-    hide_comps. tie1. rewrite Hk3. tie1. rewrite Hk1. tie1. comp_step OFloor floor_pack. unfold k_eptres_pack_pad. tie.
+    hide_comps. tie1. rewrite Hk3. tie1. rewrite Hk1. tie1. comp_step OFloor floor_ranges floor_pack. rewrite Hkf. unfold k_eptres_pack_pad. tie.
     all: match goal with |- context [for_each _ _ _ _ _ ?E] =>
            edestruct (IH (i + 1) E) as [env' [He [Hr' [Ht' [Hs' Hb']]]]] end;
          [ cbn; reflexivity | cbn; reflexivity | cbn; exact Hs | lia | lia | assumption | ].
@@ -182,16 +181,16 @@ Qed.
 Lemma towers_of_map l : @map (list floor) V vfloors l = map vfloors l.
 Proof. reflexivity. Qed.
 
-Lemma flow_eptmapresult_pack mf fuel m : eptres_ranges m = true ->
+Lemma flow_eptmapresult_pack mf fuel m : ept_map_result_ranges m = true ->
   run (W mf) fuel k_flow_eptmapresult_pack [VO (OEptMapResult m)] = Ok (VB (ept_map_result_pack m)).
 Proof.
-  unfold eptres_ranges. intros Hr.
+  unfold ept_map_result_ranges. intros Hr.
   apply andb_prop in Hr. destruct Hr as [Hr H4]. apply andb_prop in Hr. destruct Hr as [Hr H3].
   apply andb_prop in Hr. destruct Hr as [H1 H2]. pose proof (in_range_4_8 _ H3) as H5.
   unfold ept_map_result_pack, entry_handle_pack, k_flow_eptmapresult_pack.
   match goal with |- context [SFor ?a ?b ?c] => remember (SFor a b c) as loop end.
   destruct m as [eh ts stt]. cbn [er_entry_handle er_towers er_status] in *.
-  destruct eh as [[a u]|]; cbn [handle_ok] in H1.
+  destruct eh as [[a u]|]; cbn [handle_ranges] in H1.
   all: tie1; rewrite ?H1; tie1.
   all: subst loop; rewrite exec_for; cbn.
   all: match goal with |- context [for_each _ _ _ _ _ ?E] => match E with context [OEptMapResult ?M] =>
@@ -204,17 +203,30 @@ Proof.
 Qed.
 
 
-(* the model's well-formedness predicate implies the ranges *)
-Lemma wf_eptres_ranges m : wf_ept_map_result m = true -> eptres_ranges m = true.
+(* the model's well-formedness predicates imply the ranges *)
+Lemma wf_floor_ranges f : wf_floor f = true -> floor_ranges f = true.
 Proof.
-  unfold wf_ept_map_result, eptres_ranges. intros H.
+  unfold wf_floor. intros H.
+  apply andb_prop in H. destruct H as [H Hk]. apply andb_prop in H. destruct H as [H _]. apply andb_prop in H. destruct H as [H _].
+  apply andb_prop in H. destruct H as [Hl Hr]. cbn [floor_ranges floor_generic_ranges]. rewrite Hl, Hr, andb_true_r.
+  unfold floor_protocol. destruct (fl_kind f) as [|port|addr|vm|u v vm]; cbn [floor_kind_ranges andb].
+  - apply andb_prop in Hk. destruct Hk as [Hk _]. rewrite Hk. reflexivity.
+  - rewrite Hk. reflexivity.
+  - rewrite Hk. reflexivity.
+  - rewrite Hk. reflexivity.
+  - apply andb_prop in Hk. destruct Hk as [Hk H3]. apply andb_prop in Hk. destruct Hk as [_ H2]. rewrite H2, H3. reflexivity.
+Qed.
+Lemma wf_eptres_ranges m : wf_ept_map_result m = true -> ept_map_result_ranges m = true.
+Proof.
+  unfold wf_ept_map_result, ept_map_result_ranges. intros H.
   apply andb_prop in H. destruct H as [H H4]. apply andb_prop in H. destruct H as [H H3].
   apply andb_prop in H. destruct H as [H1 H2]. rewrite H3, H4, !andb_true_r.
   apply andb_true_intro. split.
-  - destruct (er_entry_handle m) as [[a u]|]; [|reflexivity]. cbn [wf_entry_handle handle_ok] in *.
+  - destruct (er_entry_handle m) as [[a u]|]; [|reflexivity]. cbn [wf_entry_handle handle_ranges] in *.
     apply andb_prop in H1. destruct H1 as [H1 _]. apply andb_prop in H1. destruct H1 as [H1 _]. exact H1.
-  - rewrite forallb_forall in *. intros t Ht. specialize (H2 t Ht). unfold tower_ok.
-    apply andb_prop in H2. destruct H2 as [H2 Hb]. apply andb_prop in H2. destruct H2 as [_ Ha]. rewrite Ha, Hb. reflexivity.
+  - rewrite forallb_forall in *. intros t Ht. specialize (H2 t Ht). unfold tower_ranges.
+    apply andb_prop in H2. destruct H2 as [H2 Hb]. apply andb_prop in H2. destruct H2 as [Hf Ha]. rewrite Ha, Hb, andb_true_r. cbn [andb].
+    rewrite forallb_forall in *. intros x Hx. apply wf_floor_ranges, Hf, Hx.
 Qed.
 
 Lemma flow_eptmapresult_unpack_total mf mfuel fuel data : len data < Z.of_nat mfuel ->
